@@ -326,6 +326,18 @@ class Gen:
         if r.random() < 0.5:
             yield {"k": "binop", "f": r.choice(["mul", "add", "div"]), "x": ia, "y": ib, "store": True}
             yield {"k": "binop", "f": r.choice(["mul", "add", "div"]), "x": ib, "y": ia, "store": True}
+        if r.random() < 0.4:
+            # a bare number with a registry: dimensionless in A, multiplied with an atomic unit of B
+            yield {"k": "quantity", "node": na, "h": 0, "v": r.choice(VALUES), "s": r.choice(["dimensionless", "1", "percent"]),
+                   "route": "ctor", "store": True}
+            i1 = w.last_stored
+            f1 = r.choice(["mul", "mul", "div"])
+            yield {"k": "binop", "f": f1, "x": i1, "y": ib, "store": True}
+            ires = w.last_stored
+            yield {"k": "binop", "f": f1, "x": ib, "y": i1, "store": True}
+            if r.random() < 0.6:
+                yield self.g_modify(w, nb, sym)
+                yield {"k": "to", "x": ires, "s": r.choice([sym, f"{sym}**-1", "k" + sym]), "how": "to", "store": False}
 
     def s_refusal(self, w):
         r = self.rng
